@@ -918,8 +918,11 @@ func (db *SpecDB) expandModifies() error {
 						continue
 					}
 					// Type.field -> pkg.Type.field unless already qualified
-					if strings.Count(sm, ".") == 1 && src.Pkg != c.Pkg {
-						sm = pn + "." + sm
+					if sel, at := splitModAt(sm); strings.Count(sel, ".") == 1 && src.Pkg != c.Pkg {
+						sm = pn + "." + sel
+						if at != "" {
+							sm += " @ " + at
+						}
 					}
 					out = append(out, sm)
 				}
